@@ -55,7 +55,7 @@ def describe(tier):
             "JSON: EVERY tree of E3 treex blocks (root value over {a,\",NUL}, all interval/children/grandchild combinations), plus structured families: every "
             "byte value 0..255 in a node value, awkward type/label strings (non-ASCII, quote, backslash, newline, '/', '>'), linear chains of depth 1..200, and every "
             "scan tree of the mix/net scan-level families. Oracle: tree_to_json is valid JSON whose objects carry type/value(hex)/obfuscation/start/end/children for "
-            "every node; json_to_tree(tree_to_json(t)) == t with correct parent links; for every tree with <= 6 nodes EVERY single-field mutation of EVERY node (trees with <= 4 nodes also rebuilt from two Node subclasses, one with and one without __slots__) "
+            "every node; json_to_tree(tree_to_json(t)) == t with correct parent links; trees in which one Node object is referenced from several places (11 shapes: a leaf / sub-tree / parent reused under 2-3 parents, in one list, at two depths) compared in both operand orders with every independent tree that differs in one field of one node; for every tree with <= 6 nodes EVERY single-field mutation of EVERY node (trees with <= 4 nodes also rebuilt from two Node subclasses, one with and one without __slots__) "
             "(type, value, obfuscation, start, end, child added/removed) and every re-nesting that keeps the pre-order sequence (children promoted to siblings, sibling nested under its predecessor) makes the trees unequal. CLI: main() driven in-process for ALL combinations of "
             "{file argument, stdin} x {default, --json, --replace} x {shipped keywords, --keywords fixture directory, --keywords non-directory} x 12 inputs, plus real "
             "`python -m multidecoder` subprocesses for each mode with the bytes supplied as regular file, symbolic link, relative path, path with blanks, named pipe, /dev/stdin, /proc/self/fd/0 and plain standard input. Oracle: --json == tree_to_json(Multidecoder(same registry).scan(bytes)); default = one line per "
@@ -75,7 +75,7 @@ def plan(tier, seed):
             units.append(("tree", tier, bi, rv, None))
             for iv in treex.intervals(len(rv)):
                 units.append(("tree", tier, bi, rv, iv))
-    units += [("bytes",), ("labels",), ("chains",)]
+    units += [("bytes",), ("labels",), ("chains",), ("alias",)]
     units += [("stream", u) for u in streams.plan(tier, fams=STREAM_FAMS, lite=1)]
     for src in ("file", "stdin"):
         for mode in ("default", "--json", "--replace", "-j", "-r"):
@@ -145,6 +145,67 @@ def _eq(rec, a, b, w, size):
     except Exception as e:  # noqa: BLE001
         rec.violation("C20.eq.structural", f"eq-raises|{type(e).__name__}", w, f"comparing two trees raised {type(e).__name__}: {e}", size)
         return False
+
+
+def alias_shapes():
+    """Trees in which ONE Node object is referenced from several places (an expected tree written with a reused leaf / sub-tree):
+    equality is structural, so such a tree equals exactly the independent trees with the same fields everywhere."""
+    def leaf():
+        return Node("t", b"v", "o", 0, 1)
+
+    def par(name, kids):
+        return Node(name, b"vv", "", 0, 2, children=kids)
+    out = []
+    for k in (2, 3):
+        L = leaf()
+        out.append((f"leaf-under-{k}-parents", par("", [par("p", [L]) for _ in range(k)])))
+        L = leaf()
+        out.append((f"leaf-{k}-times-in-one-list", par("", [L] * k)))
+        S = par("s", [leaf()])
+        out.append((f"subtree-under-{k}-parents", par("", [par("p", [S]) for _ in range(k)])))
+    L = leaf()
+    out.append(("leaf-at-two-depths", par("", [par("p", [L]), L])))
+    L = leaf()
+    out.append(("leaf-at-two-depths-reversed", par("", [L, par("p", [L])])))
+    P = par("p", [leaf()])
+    out.append(("same-parent-twice", par("", [P, P])))
+    return out
+
+
+def run_alias(rec):
+    n = 0
+    for name, shared in alias_shapes():
+        spec = trees.tup(shared)
+        for i in range(-1, len(trees.walk(trees.mknode(spec)))):
+            for fld in ("type", "value", "obfuscation", "start", "end", "children") if i >= 0 else (None,):
+                other = trees.mknode(spec)
+                if i >= 0:
+                    node = trees.walk(other)[i]
+                    if fld == "children":
+                        node.children.append(Node("m", b"m"))
+                    else:
+                        old = getattr(node, fld)
+                        setattr(node, fld, old + (1 if isinstance(old, int) else ("x" if isinstance(old, str) else b"x")))
+                expect = trees.tup(other) == spec
+                w = {"kind": "alias", "shape": name, "mutated_node": i, "field": fld}
+                for order, (a, b) in (("shared == independent", (shared, other)), ("independent == shared", (other, shared))):
+                    rec.count("evaluations")
+                    rec.count("transitions")
+                    rec.mark("states", 0, True)
+                    n += 1
+                    try:
+                        got, ne = bool(a == b), bool(a != b)
+                    except Exception as e:  # noqa: BLE001
+                        rec.violation("C20.eq.structural", f"eq-raises|{type(e).__name__}", w, f"comparing two trees raised {type(e).__name__}: {e}", 1)
+                        continue
+                    rec.count("traces")
+                    if not expect:
+                        rec.mark("nontrivial", 0, True)
+                    if got != expect or ne == got:
+                        rec.violation("C20.eq.structural", f"eq-with-shared-node|{'false-positive' if got else 'false-negative'}", dict(w, order=order),
+                                      f"{order}: tree with a shared node ({name}) vs an independent tree that differs in {fld} of node #{i}: == gives {got}, != gives {ne}, "
+                                      f"structural comparison gives {expect}", 1)
+    rec.sample({"family": "alias", "shapes": [nm for nm, _ in alias_shapes()], "comparisons": n})
 
 
 def check_json(rec, root, w, size, mutate=False, _sub=False):
@@ -494,6 +555,8 @@ def run_unit(unit, rec):
             rec.mark("states", 0, True)
             check_json(rec, treex.mk(spec), {"kind": "tree", "spec": spec}, 3)
         rec.sample({"family": "awkward labels and spans", "labels": LABELS})
+    elif kind == "alias":
+        run_alias(rec)
     elif kind == "chains":
         for depth in range(1, 201):
             spec = ("leaf", b"x", "", 0, 1, [])
@@ -524,6 +587,8 @@ def replay(w, rec):
         for d in range(w["depth"]):
             spec = ("t%d" % d, b"xy", "o", 0, 1, [spec])
         check_json(rec, treex.mk(spec), w, 0)
+    elif k == "alias":
+        run_alias(rec)
     elif k == "cli":
         run_cli_unit(rec, w["src"], w["mode"], w["kw"])
     elif k == "subprocess":
